@@ -1015,6 +1015,9 @@ func (f *Frame) appendOp(st *State, x *ssa.Call, s, t Val) Val {
 	resCap := Ite(inPlace, s.cap_(), newCap)
 	for _, name := range comps {
 		c := vc.get(st, name)
+		if !vc.freshRefs[s.arr().S] {
+			st.markDirty(name)
+		}
 		inner := c.Sort.V
 		src := Select(c, s.arr())
 		var content Term
@@ -1044,6 +1047,7 @@ func (f *Frame) appendOp(st *State, x *ssa.Call, s, t Val) Val {
 				x0 := Select(Select(c, t.arr()), Zero)
 				f.appendSetFacts(st, el, src, s.len(), content, newLen, true, x0, Term{}, Term{})
 				f.appendFieldSetFacts(st, el, src, s.len(), content, newLen, x0)
+				f.appendImageSetFacts(st, el, src, s.len(), content, newLen, x0)
 			} else {
 				f.appendSetFacts(st, el, src, s.len(), content, newLen, false, Term{}, Select(c, t.arr()), n)
 			}
@@ -1149,6 +1153,13 @@ func (f *Frame) mapStore(st *State, mt types.Type, m, k Term, v Val, pos token.P
 	dom, size, vals := f.mapComps(mt)
 	f.frameCheckRef(st, m, dom, pos, "map update")
 	f.ownCheckVal(st, m, v, pos, "map update", "M|"+typeKey(mt))
+	if !vc.freshRefs[m.S] {
+		st.markDirty(dom)
+		st.markDirty(size)
+		for _, vn := range vals {
+			st.markDirty(vn)
+		}
+	}
 	d := vc.get(st, dom)
 	dm := Select(d, m)
 	was := Select(dm, k)
@@ -1165,6 +1176,8 @@ func (f *Frame) mapDelete(st *State, mt types.Type, m, k Term, pos token.Pos) {
 	vc := f.vc
 	dom, size, _ := f.mapComps(mt)
 	f.frameCheckRef(st, m, dom, pos, "map delete")
+	st.markDirty(dom)
+	st.markDirty(size)
 	d := vc.get(st, dom)
 	dm := Select(d, m)
 	was := Select(dm, k)
